@@ -230,5 +230,123 @@ def main():
     print("pki: %d sets in %s" % (len(sets), OUT))
 
 
+# ---------------------------------------------------------------------------------------------
+# C09: a self-contained PKI of its own (own roots, so the sets above are never touched) under
+# build/pki/c09/.  `make.py --c09` (re)generates it atomically (temporary directory + rename).
+#
+#   <kind>/cert.pem (leaf + the intermediates the peer presents), <kind>/key.pem   -- peer credential kinds
+#   own/cert.pem, own/key.pem                                                      -- the valid credential
+#   tc_root.pem tc_root2.pem tc_both.pem tc_inter.pem                              -- trust anchor bundles
+#   crl_revoking.pem crl_empty.pem                                                 -- CRL bundles (every CA has a CRL)
+#   kinds.tsv   name  path  time  revoked  eku  names   -- what the generator put INTO each certificate;
+#               this table (not the implementation) is what the `policy` oracle of h_tls.c reads
+#   manifest.json
+#
+# Validity is relative to generation time with wide margins (expired: ended 20 days ago; not yet
+# valid: starts in 20 days); the set is regenerated when older than 5 days.
+C09_VERSION = 3
+C09_MAX_AGE_S = 5 * 24 * 3600
+
+
+def mk_self_signed_leaf(cn):
+    k = key()
+    b = (x509.CertificateBuilder().subject_name(name(cn)).issuer_name(name(cn))
+         .public_key(k.public_key()).serial_number(x509.random_serial_number())
+         .not_valid_before(NOW - 2 * DAY).not_valid_after(NOW + 365 * DAY)
+         .add_extension(x509.BasicConstraints(ca=False, path_length=None), critical=True)
+         .add_extension(x509.SubjectAlternativeName([x509.DNSName(cn)]), critical=False))
+    return b.sign(k, hashes.SHA256()), k
+
+
+def main_c09():
+    import shutil
+    dst = os.path.join(OUT, "c09")
+    man_path = os.path.join(dst, "manifest.json")
+    if "--force" not in sys.argv and os.path.exists(man_path):
+        try:
+            m = json.load(open(man_path))
+            made = datetime.datetime.fromisoformat(m["made"])
+            if m.get("version") == C09_VERSION and abs((NOW - made).total_seconds()) < C09_MAX_AGE_S:
+                print("pki/c09: up to date")
+                return
+        except Exception:  # noqa: BLE001
+            pass
+    os.makedirs(OUT, exist_ok=True)
+    tmp = os.path.join(OUT, "c09.tmp%d" % os.getpid())
+    shutil.rmtree(tmp, ignore_errors=True)
+    os.makedirs(tmp)
+
+    def put(rel, data):
+        p = os.path.join(tmp, rel)
+        os.makedirs(os.path.dirname(p), exist_ok=True)
+        with open(p, "wb") as f:
+            f.write(data)
+
+    R, Rk = mk_ca("c09-root")
+    U, Uk = mk_ca("c09-untrusted-root")
+    inter, Ik = mk_ca("c09-inter", R, Rk)
+    RI, RIk = mk_ca("c09-revoked-inter", R, Rk)
+    UI, UIk = mk_ca("c09-untrusted-inter", U, Uk)
+    XI, XIk = mk_ca("c09-expired-inter", R, Rk, nb=NOW - 400 * DAY, na=NOW - 20 * DAY)
+    P = "peer.verif.test"
+    EKU = ExtendedKeyUsageOID
+    kinds = []     # (name, chain, key, path, time, revoked, eku, names)
+
+    def kind(nm, leaf, k, chain, path, time="ok", revoked="no", eku="none", names=(P,)):
+        kinds.append((nm, [leaf] + chain, k, path, time, revoked, eku, list(names)))
+
+    c, k = mk_leaf(P, R, Rk); kind("valid", c, k, [], "R")
+    c, k = mk_leaf(P, U, Uk); kind("untrusted_root", c, k, [], "U")
+    c, k = mk_leaf(P, inter, Ik); kind("via_inter", c, k, [inter], "I>R")
+    c, k = mk_leaf(P, UI, UIk); kind("via_untrusted_inter", c, k, [UI], "UI>U")
+    c, k = mk_leaf(P, R, Rk, nb=NOW - 60 * DAY, na=NOW - 20 * DAY); kind("expired", c, k, [], "R", time="expired")
+    c, k = mk_leaf(P, R, Rk, nb=NOW + 20 * DAY, na=NOW + 60 * DAY); kind("not_yet_valid", c, k, [], "R", time="notyet")
+    rev, revk = mk_leaf(P, R, Rk); kind("revoked", rev, revk, [], "R", revoked="leaf")
+    c, k = mk_leaf(P, RI, RIk); kind("under_revoked_inter", c, k, [RI], "RI>R", revoked="inter")
+    c, k = mk_leaf("wrong.verif.test", R, Rk); kind("wrong_name", c, k, [], "R", names=["wrong.verif.test"])
+    c, k = mk_leaf(P, R, Rk, eku=[EKU.SERVER_AUTH]); kind("eku_server", c, k, [], "R", eku="server")
+    c, k = mk_leaf(P, R, Rk, eku=[EKU.CLIENT_AUTH]); kind("eku_client", c, k, [], "R", eku="client")
+    c, k = mk_leaf(P, R, Rk, sans=[]); kind("no_san", c, k, [], "R")
+    c, k = mk_leaf(P, R, Rk, eku=[EKU.SERVER_AUTH, EKU.CLIENT_AUTH]); kind("eku_both", c, k, [], "R", eku="both")
+    c, k = mk_leaf(P, R, Rk, eku=[EKU.CODE_SIGNING]); kind("eku_other", c, k, [], "R", eku="other")
+    c, k = mk_self_signed_leaf(P); kind("self_signed", c, k, [], "SELF")
+    xrev, xrevk = mk_leaf(P, R, Rk, nb=NOW - 60 * DAY, na=NOW - 20 * DAY)
+    kind("expired_revoked", xrev, xrevk, [], "R", time="expired", revoked="leaf")
+    c, k = mk_leaf(P, XI, XIk); kind("under_expired_inter", c, k, [XI], "XI>R", time="inter-expired")
+    c, k = mk_leaf(P, R, Rk, sans=["other.verif.test"]); kind("cn_right_san_wrong", c, k, [], "R", names=[P, "other.verif.test"])
+    c, k = mk_leaf("wrong.verif.test", R, Rk, sans=[P]); kind("cn_wrong_san_right", c, k, [], "R", names=["wrong.verif.test", P])
+    c, k = mk_leaf("wild.verif.test", R, Rk, sans=["*.verif.test"]); kind("wildcard", c, k, [], "R", names=["wild.verif.test", "*.verif.test"])
+
+    for nm, chain, k, *_ in kinds:
+        put(nm + "/cert.pem", b"".join(pem_cert(x) for x in chain))
+        put(nm + "/key.pem", pem_key(k))
+    own, ownk = mk_leaf("own.verif.test", R, Rk)
+    put("own/cert.pem", pem_cert(own))
+    put("own/key.pem", pem_key(ownk))
+    put("tc_root.pem", pem_cert(R))
+    put("tc_root2.pem", pem_cert(U))
+    put("tc_both.pem", pem_cert(R) + pem_cert(U))
+    put("tc_inter.pem", pem_cert(inter))
+    other = (mk_crl(inter, Ik) + mk_crl(RI, RIk) + mk_crl(XI, XIk) + mk_crl(U, Uk) + mk_crl(UI, UIk))
+    put("crl_revoking.pem", mk_crl(R, Rk, [rev, RI, xrev]) + other)
+    put("crl_empty.pem", mk_crl(R, Rk) + other)
+    lines = ["# name\tpath\ttime\trevoked\teku\tnames"]
+    for nm, chain, k, path, time, revoked, eku, names in kinds:
+        lines.append("\t".join([nm, path, time, revoked, eku, ":".join(names)]))
+    put("kinds.tsv", ("\n".join(lines) + "\n").encode())
+    put("manifest.json", json.dumps(dict(made=NOW.isoformat(), version=C09_VERSION,
+                                         kinds=[dict(name=x[0], path=x[3], time=x[4], revoked=x[5], eku=x[6],
+                                                     names=x[7]) for x in kinds]), indent=1).encode())
+    old = dst + ".old%d" % os.getpid()
+    if os.path.exists(dst):
+        os.rename(dst, old)
+    os.rename(tmp, dst)
+    shutil.rmtree(old, ignore_errors=True)
+    print("pki/c09: %d kinds in %s" % (len(kinds), dst))
+
+
 if __name__ == "__main__":
-    main()
+    if "--c09" in sys.argv:
+        main_c09()
+    else:
+        main()
